@@ -307,6 +307,12 @@ func (n *Net) Walk(raw []byte, start addr.IA, rtr int, macs *Walk) *Walk {
 			w.Final = Final{Kind: "noroute", IA: a.AS.IA, Rtr: rtr, StopDesc: err.Error()}
 			return w
 		}
+		if o.In == nil {
+			o.In = parseAny(raw) // EPIC: the embedded SCION path
+		}
+		if o.Out == nil && len(o.Res.Out) > 0 {
+			o.Out = parseAny(o.Res.Out)
+		}
 		w.macEntries(a, o.In)
 		res := o.Res
 		stop := func(k, d string) *Walk {
